@@ -6,7 +6,7 @@
 From Coq Require Import List NArith ZArith Bool.
 From GoPdf.Base Require Import Bytes Res.
 From GoPdf.Gen Require Import Gen_Consts Gen_Perm.
-From GoPdf.C09 Require Import Word Tab MD5 RC4 SHA2 AES Pkcs7.
+From GoPdf.C09 Require Import Word Tab MD5 RC4 SHA2 AES Pkcs7 ReadModel.
 Import ListNotations.
 Open Scope N_scope.
 
@@ -224,6 +224,21 @@ Definition create6 (id user owner : bytes) (perm : Z) (plain_meta : bool)
   Ok ({| hR := 6; hID := id; hO := o; hU := u; hOE := oe; hUE := ue; hPerms := perms;
          hP := P; hKeyBytes := 32; hPlainMeta := plain_meta |}, fkey))))).
 
+(* R 5 (the deprecated Adobe extension, read-only in go-pdf): as revision 6 with a single SHA-256 for
+   Algorithm 2.B.  Used to produce test files for the Reader. *)
+Definition create5 (id user owner : bytes) (perm : Z) (plain_meta : bool)
+           (fkey usalt osalt fill : bytes) : handler * bytes :=
+  let pu := trunc_passwd user in
+  let po := trunc_passwd owner in
+  let P := stdSecPermToP perm in
+  let u := sha256 (pu ++ firstn 8 usalt) ++ usalt in
+  let ue := aes_cbc_nopad_enc (sha256 (pu ++ skipn 8 usalt)) zero16 fkey in
+  let o := sha256 (po ++ firstn 8 osalt ++ u) ++ osalt in
+  let oe := aes_cbc_nopad_enc (sha256 (po ++ skipn 8 osalt ++ u)) zero16 fkey in
+  let perms := aes_encrypt_block fkey (perms_plain P plain_meta fill) in
+  ({| hR := 5; hID := id; hO := o; hU := u; hOE := oe; hUE := ue; hPerms := perms;
+      hP := P; hKeyBytes := 32; hPlainMeta := plain_meta |}, fkey).
+
 (* ---- Algorithm 1: per-object keys ------------------------------------------------- *)
 
 Definition key_input (num gen : N) : bytes :=
@@ -251,6 +266,12 @@ Definition encrypt_stream (aes : bool) (okey iv : bytes) (writes : list bytes) :
 
 Definition decrypt_stream (aes : bool) (okey buf : bytes) : res bytes :=
   if aes then decrypt_stream_aes (decrypt_with (round_keys okey)) buf else Ok (rc4 okey buf).
+
+(* DecryptStream read through its io.Reader: the source delivers pieces of the given sizes (minus one),
+   reports EOF early or late, the consumer reads with buffers of the given sizes (minus one).
+   RC4 is a cipher.StreamReader: every byte is XORed with the next key stream byte however it arrives. *)
+Definition read_stream (aes : bool) (okey buf : bytes) (sizes : list nat) (early : bool) (cs : list nat) : res bytes :=
+  if aes then read_stream_aes (decrypt_with (round_keys okey)) buf sizes early cs else Ok (rc4 okey buf).
 
 (* ---- NewWriter's choice and AsDict ------------------------------------------------- *)
 
